@@ -215,10 +215,10 @@ func (s *PacketSock) IsClosed() bool {
 
 type DgramState struct {
 	FlowN int
-	Seq  int
-	From string
-	To   string
-	Len  int
+	Seq   int
+	From  string
+	To    string
+	Len   int
 }
 
 func (d DgramState) Desc() string {
